@@ -18,6 +18,8 @@ import (
 
 	"github.com/golang/glog"
 	"golang.org/x/sync/errgroup"
+
+	"github.com/facebookincubator/dns/dnsrocks/verifhook"
 )
 
 const (
@@ -134,12 +136,14 @@ func (r *SubnetRanger) OpenScanner() (s *SubnetRangerScanner) {
 					chunk = append(chunk, string(b))
 
 					if len(chunk) == maxChunkSize {
+						verifhook.Yield("ranger.chunk.send")
 						chunks <- chunk
 						chunk = make([]string, 0, maxChunkSize)
 					}
 				}
 
 				if len(chunk) > 0 {
+					verifhook.Yield("ranger.tail.send")
 					chunks <- chunk
 				}
 
